@@ -236,6 +236,8 @@ PROPS = {
             ("sass::functions::list set_nth closure", "sass/functions/list.rs", r"def!\(f, set_nth\("),
             ("sass::functions::list index closure", "sass/functions/list.rs", r"def!\(f, index\("),
             ("sass::functions::list append/join/separator/is-bracketed closures", "sass/functions/list.rs", r"def!\(f, append\("),
+            ("sass::functions::list nth closure", "sass/functions/list.rs", r"def!\(f, nth\(list, n\)"),
+            ("sass::functions::list::get_list", "sass/functions/list.rs", r"^fn get_list"),
         ],
         "bounds": {"quick": "ALL i64 n, every list length <= 2^32 (len symbolic); list.index: lists and maps of 0..3 entries, any $value, `==` uninterpreted"},
         "outside": "zip, length, maps and arglists as lists, the nth closure's dispatch on list/map/scalar; the element vectors themselves are opaque (append/join are decided on separator/bracket selection and on which vector is pushed/appended to which)",
@@ -310,6 +312,7 @@ PROPS = {
             ("sass::functions::math::distance::sass_abs", "sass/functions/math/distance.rs", r"^fn sass_abs"),
             ("rsass::value::Numeric::percentage", "value/numeric.rs", r"fn percentage\("),
             ("sass::functions::math clamp closure", "sass/functions/math.rs", r"def!\(f, clamp\("),
+            ("global clamp() closure", "sass/functions/math/css.rs", r"def_va!\(global, clamp\(number\)"),
             ("sass::functions::math::find_extreme", "sass/functions/math.rs", r"^fn find_extreme"),
         ],
         "bounds": {"quick": "E1: ALL finite f64 for ceil/floor/trunc/round against their order-theoretic definitions, all non-NaN f64 for abs/signum, all integers "
